@@ -11,7 +11,9 @@ LEVEL = "proof"
 RULE = ("tables of ~60 rows per do_call(method=threshold): log2 = every threshold, its two float neighbours "
         "(nextafter), every integer crossing of r*2^log2 and its neighbours, random reals, NaN; threshold vectors: "
         "the defaults and random strictly increasing vectors of length 1..12; ploidy 1..6 x {autosome, X, Y} x hapX "
-        "x naming style (incl. upper/lower case); BAF grid {0, 1/4, 1/2, 3/4, 1, random, missing}. "
+        "x naming style (incl. upper/lower case); BAF grid {0, 1/4, 1/2, 3/4, 1, random, missing}; plus clonal calls at purity "
+        "0.2..0.99 with the BAFs supplied as variants (0..3 SNPs per segment, frequencies incl. 0, 0.01, 0.99, 1), where "
+        "the purity rescale pushes BAF outside [0,1]. "
         "non-trivial = table holds a log2 exactly at a threshold or within one ulp of it, or above the last threshold; "
         "distinct by hash")
 EXHAUSTIVE = {"quick": False, "thorough": False}
@@ -103,6 +105,33 @@ def _table(rng, nrows=60):
                    "thr": [frac(t) for t in thr], "thr_f": thr, "has_baf": has_baf, "check_monotone": is_default}}
 
 
+def _vtable(rng, nrows=30):
+    """clonal call at a purity < 1 with the b-allele frequencies supplied as variants (0..3 SNPs per segment)"""
+    ploidy = rng.randint(1, 5)
+    purity = rng.choice([0.3, 0.5, 0.6, 0.75, 0.9, round(rng.uniform(0.2, 0.99), 2)])
+    style = rng.choice(["chr", "plain"])
+    hapx, female = rng.random() < 0.5, rng.random() < 0.5
+    rows, log2s, snps = [], [], []
+    pos = {}
+    for _ in range(nrows):
+        cls = rng.choice(["auto", "auto", "auto", "x", "y"])
+        c = ("chr" if style == "chr" else "") + (str(rng.randint(1, 4)) if cls == "auto" else cls.upper())
+        s0 = pos.get(c, 0) + rng.randint(0, 5000)
+        e0 = s0 + rng.randint(100, 100000)
+        pos[c] = e0
+        lg = rng.choice([rng.uniform(-2, 2), 0.0, 1.0, 0.58, -1.0])
+        rows.append([c, s0, e0, frac(lg), frac(2.0 ** lg), None])
+        log2s.append(lg)
+        for _k in range(rng.choice([0, 1, 1, 2, 3])):
+            f = rng.choice([0.5, 0.9, 0.1, 0.99, 0.01, 1.0, 0.0, 0.75, rng.random()])
+            snps.append([c, rng.randint(s0, e0 - 1), f])
+    return {"op": "call", "tag": "clonal-purity-variants",
+            "in": {"rows": rows, "log2_f": log2s, "method": "clonal", "ploidy": ploidy, "purity": frac(purity),
+                   "purity_f": purity, "hapX": hapx, "female": female, "par": None,
+                   "thr": [frac(t) for t in K.DEFAULT_THR], "thr_f": list(K.DEFAULT_THR), "has_baf": True,
+                   "variants": True, "snps_f": snps, "check_monotone": False}}
+
+
 def corpus():
     import random
     rng = random.Random(2)
@@ -130,11 +159,14 @@ def gen_cases(rng, tier):
         i["check_monotone"] = False
         c["tag"] += "-cli"
         cases.append(c)
+    cases += [_vtable(rng) for _ in range({"quick": 30, "thorough": 300, "search": 60}[tier])]
     return cases
 
 
 def nontrivial(case, impl, resp):
     i = case["in"]
+    if i.get("variants"):
+        return bool(i["snps_f"])
     thr = i["thr_f"]
     for lg in i["log2_f"]:
         if lg is None:
